@@ -22,7 +22,7 @@ def concrete_obl_fails(o, tol):
     if kind == 0: return abs(va - vb) > tol * scale
     if kind == 1: return va - vb > tol * scale
     if kind == 2: return va != vb
-    return False
+    return False   # kind 3 (witness) and 4 (derivative) have no direct concrete test
 
 
 def classify_fault(rec, info):
@@ -129,6 +129,27 @@ def run_config(prop, cfg, tier, seed):
         elif p['kind'] == 'check':
             fails = [l for c, l in prec.checks if not c and l == p['label']]
             p['confirmed'] = bool(fails); p['replay_observed'] = 'check fails' if fails else 'check passes'
+        elif p.get('okind') == 'deriv':
+            # central finite difference of the published value on the plain build
+            def find(rec_):
+                occ_ = 0
+                for o in rec_.obl:
+                    if o[6] == p['label']:
+                        if occ_ == p['occ']: return o
+                        occ_ += 1
+                return None
+            o0 = find(prec)
+            if o0 is None: p['confirmed'] = False; p['replay_observed'] = 'obligation not reached on the plain build'
+            else:
+                sid = o0[7]; h = 1e-6; vals = []
+                for sg in (1, -1):
+                    inp = dict(p['inputs']); inp[sid] = inp.get(sid, prec.syms[sid][2]) + sg * h
+                    r2, _ = fpsym.run_harness(plain, cfg.args, inp, work, cfg.timeout, None, tag='replayfd')
+                    o2 = find(r2) if r2 is not None else None
+                    vals.append(float.fromhex(o2[4]) if o2 is not None else float('nan'))
+                fd = (vals[0] - vals[1]) / (2 * h); jac = float.fromhex(o0[3]); sc = float.fromhex(o0[5])
+                p['confirmed'] = (fd == fd) and abs(fd - jac) > 1e-5 * max(1.0, sc)
+                p['replay_observed'] = 'differentiate gives %r, central finite difference of evaluate gives %r' % (jac, fd)
         else:
             occ = 0; found = None
             for o in prec.obl:
